@@ -19,7 +19,7 @@ def run_streams(ck, streams, tier, seed, workers=8):
 
     def one(job):
         st, sh = job
-        ext = {"coqcases": ".v", "oracle": ".txt", "monitor": ".out"}[st["kind"]]
+        ext = {"coqcases": ".v", "coqprint": ".v", "oracle": ".txt", "monitor": ".out"}[st["kind"]]
         path = os.path.join(C.CASES, "cases_%s_%s_%d%s" % (ck.pid, st["name"], sh, ext))
         args = st["args"](tier, seed, sh, path)
         rc, rep, out, err = C.harness(args, timeout=st.get("timeout", 1500), race=st.get("race", False), env=st.get("env"))
@@ -29,9 +29,46 @@ def run_streams(ck, streams, tier, seed, workers=8):
             return res
         if st["kind"] == "coqcases":
             ok, cout = C.coq_eval_cases(path, timeout=st.get("coq_timeout", 2400))
-            marker = st.get("ok_marker", "M = []")
-            if not ok or marker not in " ".join(cout.split()):
+            markers = st.get("ok_markers") or [st.get("ok_marker", "M = []")]
+            flat = " ".join(cout.split())
+            if not ok or not all(mk in flat for mk in markers):
                 res["broken"] = "correspondence %s (model vs implementation) disagrees, see %s: %s" % (st["name"], path, cout[-700:])
+        elif st["kind"] == "coqprint":
+            # the cases file ends with `Eval vm_compute in (...)` printing a list (one element per case);
+            # <path>.expected holds what the real engine produced, one line per case, same syntax after
+            # normalisation (numbers and brackets only)
+            ok, cout = C.coq_eval_cases(path, timeout=st.get("coq_timeout", 2400))
+            if not ok:
+                res["broken"] = "correspondence %s: the model could not be evaluated, see %s: %s" % (st["name"], path, cout[-700:])
+            else:
+                import re as _re
+                body = cout[cout.index("= ") + 2:] if "= " in cout else ""
+                body = body[:body.rindex(":")] if ":" in body else body
+                toks = _re.findall(r"-?\d+|\[|\]|true|false|Some|None", body)
+                got_lines, depth, cur = [], 0, []
+                for t in toks:
+                    if t == "[":
+                        depth += 1
+                        if depth >= 2:
+                            cur.append(t)
+                    elif t == "]":
+                        if depth >= 2:
+                            cur.append(t)
+                        depth -= 1
+                        if depth == 1:
+                            got_lines.append(" ".join(cur))
+                            cur = []
+                    elif depth >= 2:
+                        cur.append(t)
+                    elif depth == 1:
+                        got_lines.append(t)
+                exp_lines = [" ".join(_re.findall(r"-?\d+|\[|\]|true|false|Some|None", l)) for l in open(path + ".expected").read().splitlines() if l.strip()]
+                bad = [i for i in range(max(len(exp_lines), len(got_lines))) if i >= len(exp_lines) or i >= len(got_lines) or exp_lines[i] != got_lines[i]]
+                rep.setdefault("stats", {})["model_cases_compared"] = len(exp_lines)
+                if bad:
+                    i = bad[0]
+                    res["broken"] = "correspondence %s: model and implementation differ on %d of %d cases, first case %d of %s: model=%s engine=%s" % (
+                        st["name"], len(bad), len(exp_lines), i, path, (got_lines[i] if i < len(got_lines) else "<missing>")[:300], (exp_lines[i] if i < len(exp_lines) else "<missing>")[:300])
         elif st["kind"] == "oracle":
             rc2, oout, oerr = C.run("%s < %s" % (os.path.join(C.BUILD, "oracle"), path), timeout=st.get("oracle_timeout", 2400))
             done = [l for l in oout.splitlines() if l.startswith("DONE|")]
